@@ -276,6 +276,19 @@ def run_shards(family, shards, timeout=1800, augment=None, no_model=False):
         shutil.rmtree(tmp, ignore_errors=True)
 
 
+def tie_groups(rows, key):
+    """an order-preserving canonical form of a sorted table: consecutive rows with the same sort key form one group that is
+    compared as a set; the sequence of groups keeps the emitted order (used by C08's run-to-run comparison)"""
+    out = []
+    for r in rows:
+        k = key(r)
+        if out and out[-1][0] == k:
+            out[-1][1].append(json.dumps(r, sort_keys=True, ensure_ascii=False))
+        else:
+            out.append([k, [json.dumps(r, sort_keys=True, ensure_ascii=False)]])
+    return [[k, sorted(v)] for k, v in out]
+
+
 def canon(x):
     return json.dumps(x, sort_keys=True, ensure_ascii=False)
 
